@@ -32,6 +32,21 @@ type c19Case struct {
 	Sec     int64  `json:"sec"`     // write: the time
 	Nsec    int64  `json:"nsec"`
 	Off     int    `json:"off"`
+	// Local, if set, is the process's local time zone while the case runs (a zone with
+	// daylight saving): what a stored integer means does not depend on where the reader sits.
+	Local string `json:"local,omitempty"`
+}
+
+// withLocal runs f with time.Local set to the named zone.
+func withLocal(name string, f func()) {
+	if name != "" {
+		if loc, err := time.LoadLocation(name); err == nil {
+			old := time.Local
+			time.Local = loc
+			defer func() { time.Local = old }()
+		}
+	}
+	f()
 }
 
 func init() { registerReplay("c19", func(c c19Case) error { _, err := runC19(c); return err }) }
@@ -92,7 +107,12 @@ func c19Field(s ref.Schema) ref.Schema {
 	return f
 }
 
-func runC19(c c19Case) (bool, error) {
+func runC19(c c19Case) (nt bool, err error) {
+	withLocal(c.Local, func() { nt, err = runC19Zone(c) })
+	return nt, err
+}
+
+func runC19Zone(c c19Case) (bool, error) {
 	cc, err := c19CodecFor(c.Logical, c.Ptr)
 	if err != nil {
 		return false, fmt.Errorf("Schema.Codec for %s: %v", c.Logical, err)
@@ -231,10 +251,22 @@ func TestC19(t *testing.T) {
 			}
 		}
 	}
+	// a year of days in each season's neighbourhood, read by a process whose local zone has daylight saving
+	for _, zone := range c18Zones {
+		for _, start := range []int64{-1700, 0, 19800} {
+			for d := start; d < start+366; d += 3 {
+				try(c19Case{Logical: "date", Dir: "read", Stored: d, Local: zone}, t)
+				try(c19Case{Logical: "timestamp-millis", Dir: "read", Stored: d * 86400000, Local: zone}, t)
+			}
+		}
+	}
 	rapid.Check(t, func(rt *rapid.T) {
 		l := c19Logicals[gen.Uniform(rt, "logical", 4)]
 		lo, hi := storedRange(l)
 		c := c19Case{Logical: l, Ptr: rapid.Bool().Draw(rt, "ptr")}
+		if gen.Uniform(rt, "localZone", 4) == 0 {
+			c.Local = c18Zones[gen.Uniform(rt, "zoneName", len(c18Zones))]
+		}
 		if rapid.Bool().Draw(rt, "read") {
 			c.Dir = "read"
 			c.Stored = gen.IntIn(rt, "stored", lo, hi)
@@ -299,19 +331,31 @@ func TestC19Dates(t *testing.T) {
 	rb := avro.NewReadBuf(nil)
 	var body []byte
 	var n, neg int64
-	for d := lo + off; d < hi; d += step {
-		body = ref.AppendLong(body[:0], d)
-		rb.Reset(body)
-		var v c19T
-		err := cc.codec.Read(rb, reflect.ValueOf(&v).UnsafePointer())
-		if err != nil || rb.Len() != 0 || !v.T.Equal(time.Unix(d*86400, 0)) {
-			failCase(t, "C19", "c19", c19Case{Logical: "date", Dir: "read", Stored: d},
-				fmt.Errorf("date %d decoded to %v (err %v, %d bytes left), specification says %v", d, v.T.UTC(), err, rb.Len(), time.Unix(d*86400, 0).UTC()))
-		}
-		n++
-		if d < 0 {
-			neg++
-		}
+	// half of the shards (thorough) enumerate under a local zone with daylight saving; the quick
+	// stride is short enough to be walked under both
+	zones := []string{""}
+	if thorough() && si%2 == 1 {
+		zones = []string{c18Zones[(si/2)%len(c18Zones)]}
+	} else if !thorough() {
+		zones = []string{"", c18Zones[int(seedVal())%len(c18Zones)]}
+	}
+	for _, zone := range zones {
+		withLocal(zone, func() {
+			for d := lo + off; d < hi; d += step {
+				body = ref.AppendLong(body[:0], d)
+				rb.Reset(body)
+				var v c19T
+				err := cc.codec.Read(rb, reflect.ValueOf(&v).UnsafePointer())
+				if err != nil || rb.Len() != 0 || !v.T.Equal(time.Unix(d*86400, 0)) {
+					failCase(t, "C19", "c19", c19Case{Logical: "date", Dir: "read", Stored: d, Local: zone},
+						fmt.Errorf("date %d decoded to %v (err %v, %d bytes left), specification says %v", d, v.T.UTC(), err, rb.Len(), time.Unix(d*86400, 0).UTC()))
+				}
+				n++
+				if d < 0 {
+					neg++
+				}
+			}
+		})
 	}
 	col.Bulk(n)
 	col.AddDistinct(neg)
